@@ -733,7 +733,7 @@ func runCase(w *tr.Writer, seed uint64, idx int, focus string) {
 			p.sent = append(p.sent, data[:n]...)
 			if k >= 41 && n == len(data) {
 				// the last bytes and the close (or half-close) arrive back to back: often one event
-				if k == 44 {
+				if k >= 43 {
 					switch c := p.conn.(type) {
 					case *net.TCPConn:
 						c.CloseWrite()
@@ -742,8 +742,11 @@ func runCase(w *tr.Writer, seed uint64, idx int, focus string) {
 					}
 					p.wclosed = true
 				} else {
+					// close(2) with unread data in the peer's own receive queue makes the kernel send a
+					// reset instead of an orderly FIN (and the receiver may then lose queued bytes):
+					// only the half-close variant counts as an orderly close for the end-of-stream oracle
 					p.conn.Close()
-					p.closed = true
+					p.closed, p.reset = true, true
 				}
 				w.Hist("peer-send-close")
 			} else {
